@@ -475,7 +475,7 @@ func (env *Env) sel(x *CSel) EV {
 			v = EV{T: v.T, Typ: pt.Elem(), Addr: true}
 		}
 	}
-	if v.Addr && v.Leaf != nil && v.Leaf.ghost == nil && v.Typ != nil {
+	if v.Addr && v.Leaf != nil && v.Leaf.ghost == nil && v.Typ != nil && isValueLike(v.Typ) {
 		if g := env.ghostFieldOf(v.Typ, x.Name); g != nil {
 			// ghost field of a plain-data struct stored in a field (e.g. a mutex): its identity is the field's address
 			a := fmt.Sprintf("(hv_sub %s %d)", v.T, env.fe.eng.subTag(typeLabel(v.Leaf.owner), v.Leaf.field))
